@@ -449,6 +449,9 @@ pub struct Scanner<'input, T> {
     /// [ : foo ] # { null: "foo" }
     /// ```
     flow_mapping_started: bool,
+    /// One entry per open flow collection: whether it is a mapping, and the value
+    /// [`Self::flow_mapping_started`] had when the collection was opened (restored when it closes).
+    flow_collections: Vec<(bool, bool)>,
     /// An array of states, representing whether flow sequences have implicit mappings.
     ///
     /// When a flow mapping is possible (when encountering the first `[` or a `,` in a sequence),
@@ -516,6 +519,7 @@ impl<'input, T: Input> Scanner<'input, T> {
             token_available: false,
             leading_whitespace: true,
             flow_mapping_started: false,
+            flow_collections: vec![],
             implicit_flow_mapping_states: vec![],
 
             buf_leading_break: String::new(),
@@ -1400,9 +1404,11 @@ impl<'input, T: Input> Scanner<'input, T> {
         let start_mark = self.mark;
         self.skip_non_blank();
 
-        if tok == TokenType::FlowMappingStart {
-            self.flow_mapping_started = true;
-        } else {
+        let is_mapping = tok == TokenType::FlowMappingStart;
+        self.flow_collections
+            .push((is_mapping, self.flow_mapping_started));
+        self.flow_mapping_started = is_mapping;
+        if !is_mapping {
             self.implicit_flow_mapping_states
                 .push(ImplicitMappingState::Possible);
         }
@@ -1424,6 +1430,10 @@ impl<'input, T: Input> Scanner<'input, T> {
             self.end_implicit_mapping(self.mark);
             // We are out exiting the flow sequence, nesting goes down 1 level.
             self.implicit_flow_mapping_states.pop();
+        }
+        // Back in the enclosing collection (if any): restore its state.
+        if let Some((_, enclosing_state)) = self.flow_collections.pop() {
+            self.flow_mapping_started = enclosing_state;
         }
 
         let start_mark = self.mark;
@@ -1450,6 +1460,10 @@ impl<'input, T: Input> Scanner<'input, T> {
         self.allow_simple_key();
 
         self.end_implicit_mapping(self.mark);
+        // An explicit key (`?`) in a flow sequence only concerns the entry it is in.
+        if let Some((false, _)) = self.flow_collections.last() {
+            self.flow_mapping_started = false;
+        }
 
         let start_mark = self.mark;
         self.skip_non_blank();
